@@ -2,11 +2,11 @@ module verifharness
 
 go 1.24.1
 
-require github.com/talostrading/sonic v0.0.0
-
 require (
-	github.com/HdrHistogram/hdrhistogram-go v1.1.2 // indirect
-	golang.org/x/sys v0.11.0 // indirect
+	github.com/talostrading/sonic v0.0.0
+	golang.org/x/sys v0.11.0
 )
+
+require github.com/HdrHistogram/hdrhistogram-go v1.1.2 // indirect
 
 replace github.com/talostrading/sonic => /repo
